@@ -679,6 +679,8 @@ sp_mat = z3.Function("sp_mat", ValS, ValS)  # the matrix denoted by a sparse arr
 csr_den = z3.Function("csr_den", ValS, ValS, ValS, ValS, ValS)  # the matrix denoted by a CSR triple + shape
 csr_make = z3.Function("csr_make", ValS, ValS, ValS, ValS, ValS)  # csr_array((data, indices, indptr), shape)
 fmt_has_indptr = z3.Function("fmt_has_indptr", z3.IntSort(), z3.BoolSort())
+csr_inferred_shape = z3.Function("csr_inferred_shape", ValS, ValS, ValS)  # (len(indptr) - 1, max(indices) + 1)
+arr_is_empty = z3.Function("arr_is_empty", ValS, z3.BoolSort())
 FMT_CSR = z3.IntVal(0)
 val_true = z3.Function("val_of_bool", z3.BoolSort(), ValS)(z3.BoolVal(True))
 val_truthy = z3.Function("val_truthy", ValS, z3.BoolSort())  # bool(v) of an attribute value
@@ -841,9 +843,9 @@ class HdfCacheModels:
             ex.assumed.add("S4: hasattr(v, 'indptr') depends on the sparse format only and holds for CSR (and CSC, BSR)")
             st.assume(fmt_has_indptr(FMT_CSR))
             return SV(fmt_has_indptr(sp_fmt(args[0].term)), TBool)
-        if name in ("scipy.sparse.csr_array", "csr_array") and len(args) == 2 and isinstance(args[0], tuple) and len(args[0]) == 3:
+        if name in ("scipy.sparse.csr_array", "csr_array") and len(args) in (1, 2) and isinstance(args[0], tuple) and len(args[0]) == 3 and not kwargs:
             parts = []
-            for x in (*args[0], args[1]):
+            for x in (*args[0], *args[1:]):
                 if isinstance(x, Ref) and isinstance(st.heap[x.id], H5View) and st.heap[x.id].kind == "eds":
                     h = st.heap[x.id]
                     parts.append(_dict(ex, st.heap[h.parent.id].fields["ds"]).vals[h.name])
@@ -853,6 +855,13 @@ class HdfCacheModels:
                     parts.append(x.ty.dt.get(x.term))
                 else:
                     parts.append(_val_of(ex, x))
+            if len(parts) == 3:
+                # S5 (validated natively): without a shape SciPy INFERS it from the index arrays - len(indptr) - 1 rows and
+                # max(indices) + 1 columns - and raises ValueError when there is no stored element to infer the columns from
+                ex.assumed.add("S5: csr_array((data, indices, indptr)) without shape infers (len(indptr) - 1, max(indices) + 1); ValueError if indices is empty")
+                if st.decide(arr_is_empty(parts[1])):
+                    raise _raise("ValueError", lineno)
+                parts.append(csr_inferred_shape(parts[1], parts[2]))
             for f in csr_make_facts(*parts):
                 st.assume(f)
             ex.assumed.add("S3: csr_array((data, indices, indptr), shape) is the CSR array with exactly these components")
